@@ -368,10 +368,10 @@ namespace avel {
 
         AVEL_FINL mask operator!=(Vector rhs) const {
             #if defined(AVEL_AVX512VL) || defined(AVEL_AVX10_1)
-            return mask{_mm256_cmp_ps_mask(content, rhs.content, _CMP_NEQ_OS)};
+            return mask{_mm256_cmp_ps_mask(content, rhs.content, _CMP_NEQ_UQ)};
 
             #elif defined(AVEL_AVX)
-            return mask{_mm256_cmp_ps(content, rhs.content, _CMP_NEQ_OS)};
+            return mask{_mm256_cmp_ps(content, rhs.content, _CMP_NEQ_UQ)};
             #endif
         }
 
